@@ -1392,8 +1392,9 @@ class RestAPI(object):
                     return aws_error("MissingRequiredParameter"), 400
 
 
-                error = params.get("error")
-                cause = params.get("cause")
+                # error and cause are optional in the SendTaskFailure API.
+                error = params.get("error") or "States.TaskFailed"
+                cause = params.get("cause") or ""
 
                 """
                 First check if the error or cause exceed length limits.
